@@ -79,9 +79,10 @@ fn is_handle_shape(s: &str) -> bool {
 }
 
 /// real handles in order of first appearance in a command output
-struct Names(Vec<String>);
+struct Names(Vec<String>, Vec<String>);
 impl Names {
-    /// register every live table key that occurs in `out`, left to right
+    /// register every live table key that occurs in `out`, left to right; a new key gets the
+    /// label `handle:<k>` (k = order of first appearance)
     fn see(&mut self, out: &str, ctx: &Context) {
         let live = match handles(ctx) {
             Some(h) => h,
@@ -94,6 +95,7 @@ impl Names {
                 let h = out[i..i + 27].to_string();
                 if !self.0.contains(&h) {
                     self.0.push(h);
+                    self.1.push(format!("handle:{}", self.0.len()));
                 }
                 i += 27;
             } else {
@@ -101,11 +103,24 @@ impl Names {
             }
         }
     }
+    /// `srun`: the model numbers its handles by allocation (the wrapper's temporary argument
+    /// arrays take numbers too); a real handle that is the WHOLE output of operation k gets the
+    /// name the model gave to the output of operation k
+    fn see_as(&mut self, out: &str, ctx: &Context, label: Option<String>) {
+        let live = match handles(ctx) {
+            Some(h) => h,
+            None => return,
+        };
+        if is_handle_shape(out) && live.contains_key(out) && !self.0.contains(&out.to_string()) {
+            self.0.push(out.to_string());
+            self.1.push(label.unwrap_or_else(|| format!("UNMAPPED-HANDLE-{}", self.0.len())));
+        }
+    }
     fn rename(&self, s: &str) -> String {
         let mut r = s.to_string();
         for (k, h) in self.0.iter().enumerate() {
             if r.contains(h.as_str()) {
-                r = r.replace(h.as_str(), &format!("handle:{}", k + 1));
+                r = r.replace(h.as_str(), &self.1[k]);
             }
         }
         r
@@ -242,8 +257,13 @@ fn readback_ok(ctx: &mut Context) -> bool {
 }
 
 fn run_history(ops: &[Op]) -> String {
+    run_history_with(ops, None)
+}
+
+/// `model_outs` (srun): the model's per-operation outputs, used to NAME the real handles
+fn run_history_with(ops: &[Op], model_outs: Option<Vec<Option<String>>>) -> String {
     let mut ctx = sdk_context();
-    let mut names = Names(vec![]);
+    let mut names = Names(vec![], vec![]);
     let mut outs: Vec<String> = vec![];
     let mut custom_keys: Vec<String> = vec![];
     let vars_before = ctx.variables.len();
@@ -271,7 +291,7 @@ fn run_history(ops: &[Op]) -> String {
                 ctx.state.insert("handles".to_string(), StateValue::SubState(HashMap::new()));
             }
             handles_mut(&mut ctx).unwrap().insert(key.clone(), foreign_value(tag));
-            names.see(&key, &ctx);
+            match &model_outs { Some(m) => names.see_as(&key, &ctx, m.get(k).cloned().flatten()), None => names.see(&key, &ctx) }
             outs.push(enc_str(&names.rename(&key)));
             ctx.variables.insert(format!("o{}", k), key);
             expected_vars += 1;
@@ -307,7 +327,7 @@ fn run_history(ops: &[Op]) -> String {
         match res {
             CommandResult::Continue(Some(v)) => {
                 // iteration order of HashMap / HashSet is unspecified: take the ascending representative
-                names.see(&v, &ctx);
+                match &model_outs { Some(m) => names.see_as(&v, &ctx, m.get(k).cloned().flatten()), None => names.see(&v, &ctx) }
                 if op.cmd == "map_keys" || op.cmd == "set_to_array" {
                     if let Some(h) = handles_mut(&mut ctx) {
                         if let Some(StateValue::List(l)) = h.get_mut(&v) {
@@ -1347,10 +1367,11 @@ impl Prop for C12Prop {
         gen_history(rng, tier)
     }
     fn run_impl(&self, req: &str, _m: &str) -> String {
-        // (srun: the model could not translate its allocation numbering into first-appearance
-        // numbering because a handle occurrence inside a text has two readings: no verdict)
-        if _m == "AMBIGUOUS-HANDLE-TEXT" {
-            return _m.to_string();
+        if req.starts_with("srun ") {
+            // the model's outputs name the real handles (operation k's whole output <-> the
+            // model's output k, when that is a handle name of the model)
+            let mo: Vec<Option<String>> = _m.split(' ').next().unwrap_or("").split(',').map(|t| dec_str(t).filter(|s| s.starts_with("handle:"))).collect();
+            return run_history_with(&dec_ops(req), Some(mo));
         }
         run_history(&dec_ops(req))
     }
